@@ -1071,16 +1071,19 @@ class Connection(object):
                 log.exception("Pushed event handler errored, ignoring:")
 
     def send_msg(self, msg, request_id, cb, encoder=ProtocolHandler.encode_message, decoder=ProtocolHandler.decode_message, result_metadata=None):
-        if self.is_defunct:
-            raise ConnectionShutdown("Connection to %s is defunct" % self.endpoint)
-        elif self.is_closed:
-            raise ConnectionShutdown("Connection to %s is closed" % self.endpoint)
-        elif not self._socket_writable:
-            raise ConnectionBusy("Connection %s is overloaded" % self.endpoint)
+        # test and register under the lock: defunct()/close() set their flag and swap _requests under it,
+        # so a handler is either refused here or errored by error_all_requests - never stored and forgotten
+        with self.lock:
+            if self.is_defunct:
+                raise ConnectionShutdown("Connection to %s is defunct" % self.endpoint)
+            elif self.is_closed:
+                raise ConnectionShutdown("Connection to %s is closed" % self.endpoint)
+            elif not self._socket_writable:
+                raise ConnectionBusy("Connection %s is overloaded" % self.endpoint)
 
-        # queue the decoder function with the request
-        # this allows us to inject custom functions per request to encode, decode messages
-        self._requests[request_id] = (cb, decoder, result_metadata)
+            # queue the decoder function with the request
+            # this allows us to inject custom functions per request to encode, decode messages
+            self._requests[request_id] = (cb, decoder, result_metadata)
         msg = encoder(msg, request_id, self.protocol_version, compressor=self.compressor,
                       allow_beta_protocol_version=self.allow_beta_protocol_version)
 
